@@ -1546,8 +1546,9 @@ def _run_replicas(res, replicas, op, live, outcome, mode, solver, oi):
         return
     from .e4 import _almost_converged, _ill_posed, _results_by_tag
     for s, out in zip(replicas[1:], outs[1:]):
-        if out != outs[0] and {out, outs[0]} == {"ok", "nc"} and (_almost_converged(s.net) or _almost_converged(ref.net)):
-            res.count("probe:slow-convergence-verdict-skipped")   # creeping towards the solution at the round-off floor
+        if out != outs[0] and {out, outs[0]} == {"ok", "nc"} and _almost_converged(s.net if out == "nc" else ref.net):
+            # the one that ran out of budget was creeping towards the solution at the round-off floor
+            res.count("probe:slow-convergence-verdict-skipped")
             continue
         if out != outs[0]:
             res.violate("C07", "C07/verdict-differs:%s-vs-%s:%s-vs-%s@%s" % (ref.name, s.name, outs[0], out, mode), "%s vs %s" % (outs[0], out), oi)
